@@ -57,6 +57,7 @@ type hist struct {
 	deposited, withdrawn map[common.Address]uint64
 	goneQuit, goneBlack  map[string]bool // peers removed from the pool by normalQuit / blackQuit
 	quitOrBlack          bool
+	reblack              bool               // a key was black-listed a second time onto its undrained penalty record
 	mdl                  *model             // independent release model (C11)
 	topUp                map[pairKey]int    // 1: un-authorized more than the same epoch's top-up, 2: an epoch later
 	topUpKind            map[pairKey]string // node status at that moment
@@ -164,6 +165,38 @@ func (h *hist) exec(a *action) bool {
 		h.quitOrBlack = true
 	}
 	h.mdl.apply(a.mod)
+	// coverage: second life of a black-listed key whose PenaltyStake record was not drained in between
+	if a.kind == "whiteNode" && a.mod != nil {
+		for _, pub := range a.mod.pubs {
+			if pre.apen[pub] > 0 {
+				h.class("whiteNode:ok:undrained-penalty")
+			}
+		}
+	}
+	if a.kind == "registerCandidate" && pre.apen[a.mod.pubs[0]] > 0 {
+		h.class("registerCandidate:ok:again-with-undrained-penalty")
+	}
+	if a.kind == "blackNode" {
+		for _, pub := range a.mod.pubs {
+			if p, in := pre.pool[pub]; in && p.status != stBlack && pre.apen[pub] > 0 {
+				h.class("blackNode:ok:reblacklist-with-undrained-penalty")
+				if pre.othersStaked(p) {
+					h.class("blackNode:ok:reblacklist-with-undrained-penalty:authorizers")
+				}
+			}
+		}
+	}
+	if epoch {
+		for _, pub := range pre.poolKeys {
+			if _, still := post.pool[pub]; !still && pre.pool[pub].status != stQuiting && pre.apen[pub] > 0 {
+				h.class("epoch:blackQuit-onto-undrained-penalty")
+				if post.apen[pub] > pre.apen[pub] {
+					h.class("epoch:blackQuit-onto-undrained-penalty:adds-authorizer-penalty")
+				}
+				h.reblack = true
+			}
+		}
+	}
 	if epoch {
 		for k, st := range h.topUp {
 			if st == 1 {
